@@ -327,8 +327,8 @@ def rule_block_loading(check: Check) -> None:
         why = None
         cases = 0
         try:
-            for loaded in itertools.product((True, False), repeat=3):
-                for failing in (False, True):
+            for loaded, failing, block_enabled in itertools.product(itertools.product((True, False), repeat=3), (False, True), (True, False)):
+                if True:
                     if meth == "unload_rules" and failing:
                         continue
                     cases += 1
@@ -357,7 +357,7 @@ def rule_block_loading(check: Check) -> None:
 
                     hooks = {"method:load": load, "method:unload": unload, "method:is_loaded": lambda ex_, e, recv, args, kw: recv.fields["loaded"],
                              **{f"method:{nm}": other(nm) for nm in ("parse", "deactivate", "create", "activate_with", "trigger")}}
-                    me = MObj("RuleBlock", {"rules": rules, "name": "block", "enabled": True, "__len__": 3})
+                    me = MObj("RuleBlock", {"rules": rules, "name": "block", "enabled": block_enabled, "__len__": 3})  # a disabled block is (re)loaded like any other
                     ex = AbsExec(fn.qualname, hooks, helpers={k: v for k, v in fn.cls.methods.items() if (k in ("unload_rules", "load_rules", "reload_rules") or (k.startswith("_") and not k.startswith("__"))) and k != meth})
                     env = {params[0]: me}
                     if len(params) > 1:
@@ -373,7 +373,7 @@ def rule_block_loading(check: Check) -> None:
                     except Internal as i_:
                         why = why or f"RuleBlock.{meth} ends with an internal {i_.cls}"
                         continue
-                    what = f"rules {['loaded' if l else 'not loaded' for l in loaded]}" + (", the second one fails to load" if failing else "")
+                    what = f"{'' if block_enabled else 'disabled block, '}rules {['loaded' if l else 'not loaded' for l in loaded]}" + (", the second one fails to load" if failing else "")
                     after = [(r_.fields["text"], r_.fields["weight"]) for r_ in rules]
                     extra = [ev for ev in log if ev[0] not in ("load", "unload", "deactivate")]
                     if after != before or extra or me.fields["rules"] != rules:
